@@ -11,19 +11,25 @@ import (
 
 type seqCheck struct {
 	families []string
+	thorough []string
 	rule     string
 	assume   []string
 }
 
 var seqChecks = map[string]seqCheck{
-	"C01": {families: []string{"core", "cfg"}},
-	"C02": {families: []string{"core", "cfg"}},
-	"C03": {families: []string{"core", "cfg"}},
-	"C04": {families: []string{"core", "cfg"}},
-	"C09": {families: []string{"core", "cfg"}},
-	"C10": {families: []string{"core", "cfg"}},
-	"C12": {families: []string{"core", "cfg"}},
-	"C13": {families: []string{"core", "cfg"}},
+	"C01": {families: []string{"core", "cfg", "roll", "inputs", "inputs-nt", "helpers"}},
+	"C02": {families: []string{"tail", "core"}},
+	"C03": {families: []string{"core", "cfg", "roll", "tail"}},
+	"C04": {families: []string{"core", "cfg", "roll", "tail"}},
+	"C09": {families: []string{"collide"}},
+	"C10": {families: []string{"times", "core", "cfg", "roll", "inputs", "helpers"}},
+	"C11": {families: []string{"ixfiles"}, thorough: []string{"ixfiles", "ixfiles-all"}},
+	"C12": {families: []string{"del"}},
+	"C13": {families: []string{"core", "cfg", "roll"}},
+	"C15": {families: []string{"trim"}},
+	"C16": {families: []string{"kv"}},
+	"C17": {families: []string{"versions"}},
+	"C20": {families: []string{"backup"}},
 }
 
 func tierBudget(tier string) time.Duration {
@@ -57,6 +63,9 @@ func runSeq(prop, tier string, c seqCheck) int {
 	defer pool.Close()
 	st := &seqx.Stats{FPs: map[uint64]struct{}{}}
 	budget := tierBudget(tier)
+	if tier == "thorough" && c.thorough != nil {
+		c.families = c.thorough
+	}
 	for i, name := range c.families {
 		f := seqx.Families[name]
 		if f == nil {
